@@ -59,6 +59,14 @@ CHECKS = {
                 text="UBI step, configuration block and initial tweak, the lazy final block (update on symbolic data for boundary position/length pairs), and finalize_into_dirty for every buffer position 0..=block size of seven instantiations (N = 1, 7, 32, 64, 128, 200; multi-block and odd outputs) are compared as value graphs with Skein 1.3, Threefish being the same uninterpreted symbol on both sides (decided separately by C09).",
                 note="Trusted: spec/skein.py (validated against the golden KATs), core models; block-buffer/block-padding interpreted from real MIR. Output sizes are type-level, so the named instantiations are covered, not all N.",
                 technique="compositional value-graph normalisation (Threefish as uninterpreted function), exhaustive split over buffer positions"),
+    "C06": dict(level=TV, design="3/C06",
+                text="The bit-sliced F8 (f8_impl<M>, every Machine, and through the run-time dispatcher) is compared on a symbolic state and block with the nibble-oriented F8 of the JH specification (grouping, 42 rounds S/L/P8, constants generated by R6 from sqrt(2), de-grouping); the S-box layer is an uninterpreted function on both sides and the real bit-sliced `ss` is separately shown to be exactly S0/S1 on each of its 256 bit columns by complete truth tables; `l` equals the MDS map; initial values equal F8(H(-1),0) computed by the reference model; padding/length/truncation for every buffer position of all four variants.",
+                note="Trusted: spec/jh.py (validated against the KATs), intrinsic models (bit-group swaps), normalisation laws. Unlike planned in the design, the bit-sliced/nibble equivalence and the constant tables are decided, not assumed.",
+                technique="compositional value-graph normalisation (S-box layer uninterpreted + complete truth tables of the S-box layer), exhaustive split over buffer positions"),
+    "C07": dict(level=TV, design="3/C07",
+                text="Whole-chain value graphs new(h) -> input(m1)[-> input(m2)] -> finalize for the 512- and 1024-bit compressors, for each of the three dispatch arms, equal Omega(f(f(h,m1),m2)) of the Groestl specification with the AES S-box uninterpreted on both sides (MixBytes' GF(2^8) arithmetic, ShiftBytes, round constants and the transposed internal layout are compared bit-exactly); padding, block counting and truncation for every buffer position of all four hashers; IV; update's block counting on boundary cases.",
+                note="Trusted: spec/groestl.py (validated against KATs with the S-box computed from its definition), intrinsic models incl. AESENCLAST. Block counts are symbolic 64-bit values, so 'beyond 255 / 65535 blocks' is covered by the padding rule.",
+                technique="compositional value-graph normalisation (S-box uninterpreted), exhaustive split over buffer positions"),
 }
 
 REASONS = {}
